@@ -70,6 +70,12 @@ extern "C" time_t time(time_t *t) {
 static void on_watchdog(int) { hx::emit_crash("hang-watchdog"); _exit(0); }
 static void watchdog(unsigned sec) { signal(SIGALRM, on_watchdog); ::alarm(sec); }
 static double real_now_s() { struct timespec ts; syscall(SYS_clock_gettime, CLOCK_MONOTONIC, &ts); return ts.tv_sec + ts.tv_nsec * 1e-9; }
+// seconds this process may still run: min(VERIF_DEADLINE_S, time left until the check-wide absolute deadline C20_DEADLINE_ABS (real epoch seconds))
+static double budget_s(double dflt) {
+  const char *e = getenv("VERIF_DEADLINE_S"); double d = e ? atof(e) : dflt;
+  if (const char *a = getenv("C20_DEADLINE_ABS")) { struct timespec ts; syscall(SYS_clock_gettime, CLOCK_REALTIME, &ts); d = std::min(d, std::max(1.0, atof(a) - (ts.tv_sec + ts.tv_nsec * 1e-9))); }
+  return d;
+}
 struct Virt { bool old; Virt() : old(g_virt) { g_virt = true; } ~Virt() { g_virt = old; } };
 
 // ------------------------------------------------------------------------------------------------
@@ -150,7 +156,7 @@ static std::string mask_str(int mask) { std::string s; for (int i = 0; i < 7; i+
 struct Sweep {
   const char *name; uint64_t evals = 0, skipped = 0, viols = 0, notfound = 0; double deadline; bool capped = false; int samples = 0;
   std::map<std::string, uint64_t> sigs; std::map<std::string, uint64_t> outcomes;
-  explicit Sweep(const char *n) : name(n) { const char *e = getenv("VERIF_DEADLINE_S"); double d = e ? atof(e) : 600; deadline = real_now_s() + d;
+  explicit Sweep(const char *n) : name(n) { double d = budget_s(600); deadline = real_now_s() + d;
     strncpy(hx::g_cur_tag, "C20-sweep", sizeof hx::g_cur_tag - 1); hx::set_current(std::string(n) + " (input sweep)"); watchdog((unsigned)d + 120); }
   // the replay text is only built for the (at most 3) occurrences of a signature that are printed
   template <class F> void viol(const char *kind, const char *what, F &&replay) { viols++;
@@ -191,6 +197,7 @@ static void judge(Sweep &sw, const char *kind, bool ok, int64_t now, int64_t got
   else sw.viol(kind, "-next-not-a-matching-instant", [&] { return input() + fmt(" got=%" PRId64 " ref=%" PRId64, got, ref); });
 }
 
+#ifndef C20_ONLY_FIRE   // ---- engine I half (check.py builds the two halves as two executables so they compile in parallel)
 // the base weeks: epoch 0, the week straddling 2^31, and the last week whose instants are all in the domain
 static const int64_t BASE_LO = 0, BASE_MID = (1LL << 31) - WEEK / 2, DOMAIN_END = TWO32 - WEEK - 14 * 3600 /* exclusive */, BASE_HI = DOMAIN_END - WEEK;
 
@@ -223,10 +230,11 @@ static int sweep_weekly_full(int part, int nparts, bool thorough) {
   std::vector<S> sods;
   {
     std::set<int> full, grid;
-    for (int v : {0, 1, 23296, 43200, 86398, 86399}) full.insert(v);   // 23296 = 2^32 mod 86400
+    for (int v : {0, 86399}) full.insert(v);
+    for (int v : {1, 23296, 43200, 86398}) (thorough ? full : grid).insert(v);   // 23296 = 2^32 mod 86400
     if (thorough) { for (int v : {2, 59, 60, 3599, 3600, 43199, 43201, 63104, 86340, 86397}) full.insert(v);
-                    for (int v = 0; v < 86400; v += 300) full.insert(v); for (int h = 1; h < 24; h++) { full.insert(h * 3600 - 1); full.insert(h * 3600 + 1); } }
-    else for (int v = 0; v < 86400; v += 3600) grid.insert(v + 17);
+                    for (int v = 0; v < 86400; v += 600) full.insert(v); for (int h = 1; h < 24; h++) { full.insert(h * 3600 - 1); full.insert(h * 3600 + 1); } }
+    else for (int v = 0; v < 86400; v += 7200) grid.insert(v + 17);
     for (int v : full) sods.push_back({v, 1});
     for (int v : grid) if (!full.count(v)) sods.push_back({v, 7});
   }
@@ -378,11 +386,12 @@ static int sweep_workday(int part, int nparts, bool thorough) {
   {
     WorkdayCalendar cal; WorkdayProbe a(loop); a.setCallback([] {});
     uint64_t item = 0;
-    std::vector<int64_t> base_days = {0, 19268 /* 2022-10-03, a Monday */, fdiv(BASE_MID, DAY) - 3};
-    if (thorough) base_days.push_back(fdiv(DOMAIN_END, DAY) - 380);
+    std::vector<int64_t> base_days = {19268 /* 2022-10-03, a Monday */, fdiv(BASE_MID, DAY) - 3};
+    std::vector<int> week_masks = {0x3e, 0x00, 0x7f, 0x41};
+    if (thorough) { base_days.push_back(0); base_days.push_back(fdiv(DOMAIN_END, DAY) - 380); week_masks.push_back(0x1e); week_masks.push_back(0x55); }
     for (int64_t bd : base_days) {
       std::vector<std::map<int, bool>> cals; gen_calendars((int)bd + 1, cals);
-      for (int wm : {0x3e, 0x00, 0x7f, 0x41, 0x1e}) for (auto &sp : cals) {
+      for (int wm : week_masks) for (auto &sp : cals) {
         if (item++ % nparts != (uint64_t)part) continue;
         if ((item & 63) == 0 && sw.expired()) break;
         cal.updateWeekMask((uint8_t)wm); cal.updateSpecialDays(sp);
@@ -400,7 +409,7 @@ static int sweep_workday(int part, int nparts, bool thorough) {
         }
       }
     }
-    sw.sample("all calendars with <=3 special days in a 10-day window x week masks {0x3e,0,0x7f,0x41,0x1e} x workday/holiday x sod {0,1,43200,86399} x 12 days x 5 times of day");
+    sw.sample("all calendars with <=3 special days in a 10-day window x week masks {0x3e,0,0x7f,0x41(,0x1e,0x55)} x workday/holiday x sod {0,1,43200,86399} x 12 days x 5 times of day");
     // long stretches without a matching day: the only matching day is `gap` days ahead
     if (part == 0) {
       for (int gap : {1, 7, 8, 40, 49, 50, 60, 100, 365, 366, 367, 400}) for (int on : {1, 0}) for (int64_t bd : {(int64_t)19268, fdiv(BASE_MID, DAY)}) for (int sod : {0, 30600, 86399}) {
@@ -456,7 +465,7 @@ static int sweep_cron(int part, int nparts, bool thorough) {
       auto add_day = [&](int64_t day, bool dense) {
         int sod = c.ref.sod;
         for (int64_t tod : {0, 1, 2, sod - 2, sod - 1, sod, sod + 1, sod + 2, 43200, 86397, 86398, 86399}) if (tod >= 0 && tod < DAY) nows.push_back(day * DAY + tod);
-        if (dense) for (int64_t tod = 7; tod < DAY; tod += thorough ? 61 : 997) nows.push_back(day * DAY + tod);
+        if (dense) for (int64_t tod = 7; tod < DAY; tod += !thorough ? 997 : c.ref.kind == RefCfg::CRON_DM ? 211 : 61) nows.push_back(day * DAY + tod);
       };
       std::vector<int64_t> windows = {0, days_from_civil(2023, 2, 26), days_from_civil(2024, 2, 26), days_from_civil(2023, 12, 29), fdiv(1LL << 31, DAY) - 2, days_from_civil(2100, 2, 26), fdiv(DOMAIN_END, DAY) - 8};
       for (int64_t w : windows) for (int i = 0; i < 7; i++) add_day(w + i, true);
@@ -490,6 +499,9 @@ static int sweep_cron(int part, int nparts, bool thorough) {
   sw.finish(); delete loop; return 0;
 }
 
+#endif  // !C20_ONLY_FIRE
+
+#ifndef C20_ONLY_SWEEP
 // ------------------------------------------------------------------------------------------------
 // firing: engine H
 struct FireCfg {
@@ -534,7 +546,7 @@ static int fire(const std::string &cfgname, size_t depth) {
   hx::install_crash_reporter("C20-fire-crash");
   hx::Explorer<Op> ex;
   ex.name = std::string("fire[") + cfg.name + fmt(" tz_min=%d start_utc_ms=%" PRId64 "]", cfg.tz_min, cfg.start_ms);
-  ex.deadline_s = hx::deadline_from_env(600);
+  ex.deadline_s = hx::now_s() + budget_s(600);
   ex.show = [](const Op &o) { return std::string(kOpNames[o.k]); };
   // menu restrictions are a function of the history alone (and are part of the canonical state)
   struct Lim { int skews = 0, steps = 0; bool need_pass = false; };
@@ -567,16 +579,19 @@ static int fire(const std::string &cfgname, size_t depth) {
     watchdog(30);
     if (!init_ok) viol = "alarm-initialize-rejected";
     // ---- reference model (property level)
-    bool m_enabled = false, m_synced = false; int64_t m_last_fired = -1, m_pending = -1; std::set<int64_t> m_fired; int m_fires_since_enable = 0, m_skew_ms = 0; const char *m_rearmed_by = "";   // explicit re-arming op since the last callback
+    bool m_enabled = false, m_synced = false; int64_t m_last_fired = -1, m_pending = -1; std::set<int64_t> m_fired; int m_fires_since_enable = 0, m_skew_ms = 0; const char *m_rearmed_by = ""; int64_t m_ever_fired = -1;   // explicit re-arming op since the last callback
     const bool oneshot = cfg.alarm_kind == 1;
     auto ref_next = [&](int64_t now_sec) { return cfg.ref.next_utc(now_sec, tz); };
     // called whenever the alarm (re)arms: at wall clock `at_ms` the implementation armed for `target` with delay `delay_ms`
     auto on_armed = [&](int64_t at_ms, int64_t target, int64_t delay_ms, const char *how) {
       total_arms++;
       int64_t now_sec = fdiv(at_ms, 1000);
-      int64_t want = ref_next(std::max(now_sec, m_last_fired)), alt = ref_next(now_sec);
-      m_synced = true; m_pending = want;
-      if (target != want && target != alt) { viol = fmt("alarm-armed-target-not-earliest after %s at wall_ms=%" PRId64 ": armed target=%" PRId64 " but earliest matching instant after now is %" PRId64 " (late by %" PRId64 " s)", how, at_ms, target, alt, target - alt); return; }
+      // accepted: the earliest matching instant after now (alt); the same but not before an instant that already fired (want);
+      // after a backward wall-clock step the property does not say whether re-exposed instants fire again, so "not before
+      // any instant that ever fired" (keep) is accepted as well
+      int64_t want = ref_next(std::max(now_sec, m_last_fired)), alt = ref_next(now_sec), keep = ref_next(std::max(now_sec, m_ever_fired));
+      m_synced = true; m_pending = (target == alt || target == keep) ? target : want;
+      if (target != want && target != alt && target != keep) { viol = fmt("alarm-armed-target-not-earliest after %s at wall_ms=%" PRId64 ": armed target=%" PRId64 " but earliest matching instant after now is %" PRId64 " (late by %" PRId64 " s)", how, at_ms, target, alt, target - alt); return; }
       int64_t dist = target * 1000 - at_ms;
       if (delay_ms < dist) { viol = fmt("%s after %s at wall_ms=%" PRId64 ": target=%" PRId64 " distance_ms=%" PRId64 " (%.1f days) armed_delay_ms=%" PRId64 " (%.1f days)", dist > 0xffffffffLL ? "alarm-delay-ms-overflow-32bit" : "alarm-delay-shorter-than-distance", how, at_ms, target, dist, dist / 86400000.0, delay_ms, delay_ms / 86400000.0); return; }
       if (cl->timer_min_heap_.size() != 1 || (int64_t)(cl->timer_min_heap_.front()->expired - (uint64_t)g_mono_ms) < dist) { viol = fmt("alarm-loop-timer-record-shorter-than-distance after %s at wall_ms=%" PRId64, how, at_ms); return; }
@@ -619,7 +634,7 @@ static int fire(const std::string &cfgname, size_t depth) {
             if (m_synced && f.wall_ms < att * 1000 - m_skew_ms) { viol = fmt("alarm-fired-before-instant at wall_ms=%" PRId64 ": nearest matching instant %" PRId64 " is still %.3f s (%.2f days) away, monotonic clock only %d ms ahead", f.wall_ms, att, (att * 1000 - f.wall_ms) / 1000.0, (att * 1000 - f.wall_ms) / 86400000.0, m_skew_ms); break; }
             if (m_fired.count(att)) { viol = fmt("alarm-double-fire-same-instant%s instant=%" PRId64 " second callback at wall_ms=%" PRId64 " (monotonic ahead by %d ms)", m_rearmed_by, att, f.wall_ms, m_skew_ms); break; }
             m_rearmed_by = "";
-            m_fired.insert(att); m_last_fired = std::max(m_last_fired, att); m_fires_since_enable++;
+            m_fired.insert(att); m_last_fired = std::max(m_last_fired, att); m_ever_fired = std::max(m_ever_fired, att); m_fires_since_enable++;
             if (oneshot) { m_enabled = false; if (f.running || f.timer_on) { viol = "oneshot-still-armed-in-callback"; break; } }
             else { if (!f.running || !f.timer_on) { if (ref_next(std::max(ws, m_last_fired)) >= 0) { viol = fmt("alarm-not-rearmed-after-fire at wall_ms=%" PRId64, f.wall_ms); break; } m_enabled = false; }
                    else { on_armed(f.wall_ms, f.target, f.delay_ms, "fire"); if (!viol.empty()) break; } }
@@ -638,7 +653,7 @@ static int fire(const std::string &cfgname, size_t depth) {
     std::string canon = fmt("w%" PRId64 " m%" PRId64 " st%d tg%u te%d iv%" PRId64 " hp%zu ex%" PRId64 " | en%d sy%d lf%" PRId64 " pe%" PRId64 " nf%zu fe%d sk%d | %d%d%d",
                             g_wall_ms, g_mono_ms - g_wall_ms, (int)a.state_, a.target_utc_sec_, (int)tev->is_enabled_, tev->is_enabled_ ? (int64_t)tev->interval_.count() : -1, cl->timer_min_heap_.size(),
                             cl->timer_min_heap_.empty() ? -1 : (int64_t)(cl->timer_min_heap_.front()->expired - (uint64_t)g_mono_ms),
-                            (int)m_enabled, (int)m_synced, m_last_fired, m_pending, m_fired.size(), m_fires_since_enable, m_skew_ms, l.skews, l.steps, (int)l.need_pass);
+                            (int)m_enabled, (int)m_synced, m_last_fired * 100 + (m_ever_fired != m_last_fired) * 50 + (int64_t)strlen(m_rearmed_by), m_pending, m_fired.size(), m_fires_since_enable, m_skew_ms, l.skews, l.steps, (int)l.need_pass);
     if (viol.empty()) { std::string o = fmt("callbacks=%zu enabled=%d synced=%d", m_fired.size(), (int)m_enabled, (int)m_synced); outcomes[o]++; }
     if (a.isEnabled()) a.disable();
     loop->runNext([] {}); loop->runLoop(event::Loop::Mode::kOnce);
@@ -651,17 +666,23 @@ static int fire(const std::string &cfgname, size_t depth) {
   return 0;
 }
 
+#endif  // !C20_ONLY_SWEEP
+
 int main(int argc, char **argv) {
   std::string mode = argc > 1 ? argv[1] : "";
   setvbuf(stdout, nullptr, _IOLBF, 0);
+#ifndef C20_ONLY_SWEEP
   if (mode == "fire") return fire(argc > 2 ? argv[2] : "", argc > 3 ? (size_t)atoi(argv[3]) : 6);
   if (mode == "list-fire") { for (auto &c : fire_cfgs()) printf("%s\n", c.name); return 0; }
+#endif
+#ifndef C20_ONLY_FIRE
   int part = argc > 2 ? atoi(argv[2]) : 0, nparts = argc > 3 ? atoi(argv[3]) : 1; bool thorough = argc > 4 && std::string(argv[4]) == "thorough";
   if (mode == "sweep-weekly-full") return sweep_weekly_full(part, nparts, thorough);
   if (mode == "sweep-weekly-tz") return sweep_weekly_tz(part, nparts, thorough);
   if (mode == "sweep-oneshot") return sweep_oneshot(part, nparts, thorough);
   if (mode == "sweep-workday") return sweep_workday(part, nparts, thorough);
   if (mode == "sweep-cron") return sweep_cron(part, nparts, thorough);
+#endif
   printf("@VIOL sig=harness-bad-arguments :: %s\n", mode.c_str());
   return 0;
 }
